@@ -252,6 +252,39 @@ def f28_section_embedded_in_text():
         return f"Template('inputs={{S}}') on {o}: validate passes, evaluate fails ({e}): str() of the section contains braces that the substitution takes for template keys"
 
 
+def f29_map_non_iterable():
+    from labrea import Map
+    from labrea.exceptions import EvaluationError
+    m = Map(Option("A"), {"A": Option("A")})
+    o = {"A": 1}
+    for name in ("explain", "validate", "keys"):
+        try:
+            getattr(m, name)(o)
+        except EvaluationError:
+            pass
+        except Exception as e:  # noqa
+            return f"Map(Option('A'), {{'A': Option('A')}}).{name}({o}) fails with {type(e).__name__} ({e}), not an EvaluationError"
+
+
+def f30_template_parameter_resubstituted():
+    from labrea import Template
+    t = Template("{:p:}", p=Value("{NOPE}"))
+    v, ks, e = outcome(lambda: t.validate({})), outcome(lambda: t.keys({})), outcome(lambda: t({}))
+    if e != ("ok", "{NOPE}"):
+        return f"Template('{{:p:}}', p=Value('{{NOPE}}')): validate {v}, keys {ks}, but evaluate gives {e}: the parameter value is substituted and then resolved again"
+    if t({"NOPE": 5}) != "{NOPE}":
+        return "Template('{:p:}', p=Value('{NOPE}')) reads option NOPE although keys() is empty"
+
+
+def f31_option_value_references_parameter():
+    from labrea import Template
+    t = Template("{A} {:b:}", b=Option("B"))
+    o = {"A": "{:b:}", "B": 1}
+    v, e = outcome(lambda: t.validate(o)), outcome(lambda: t(o))
+    if v[0] == "err" and e[0] == "ok":
+        return f"Template('{{A}} {{:b:}}', b=Option('B')) on {o}: validate fails ({v}) although evaluate succeeds ({e}): an option value refers to the template's parameter"
+
+
 def scenarios():
     return {k: v for k, v in list(globals().items()) if k.startswith("f") and callable(v) and k[1].isdigit()}
 
